@@ -722,6 +722,24 @@ def rule_grisu_boundaries(col, facts):
 
 
 # ---------------------------------------------------------------------------------------------
+def _counter_addends(f, counter):
+    """(block, addend expression) for every `counter = counter + X`, spelt with `+` or with saturating_add / checked_add."""
+    out = []
+    for bb, jj, rv, pr in f.defs()[counter]:
+        if pr:
+            continue
+        if rv[0] == "call":
+            if last_seg(callee_name(rv[1])) in ("saturating_add", "wrapping_add", "checked_add") and len(rv[2]) == 2:
+                out.append((bb, strip_casts(op_expr(f, rv[2][1]))))
+            continue
+        e = strip_casts(rvalue_expr(f, rv, 0))
+        if e[0] == "bin" and e[1] == "Add":
+            out.append((bb, strip_casts(e[3])))
+        elif e[0] == "call" and last_seg(e[1]) in ("saturating_add", "wrapping_add", "checked_add") and len(e[2]) == 2:
+            out.append((bb, strip_casts(e[2][1])))          # `count = count.saturating_add(X)` through a temporary
+    return out
+
+
 def rule_min_digits_allowance(col, facts):
     """TBL-size (min digits): buffer_size_const's significant-digit term must be at least
     min_significant_digits whenever that option is set: on *every* path to the final `count += digits`
@@ -739,15 +757,9 @@ def rule_min_digits_allowance(col, facts):
     if counter is None:
         raise AnchorMissing("buffer_size_const: counter not found")
     tg = None
-    for bb, j, rv, pr in f.defs()[counter]:
-        if rv[0] == "call":
-            continue
-        e = rvalue_expr(f, rv, 0)
-        if e[0] == "bin" and e[1] == "Add":
-            add = strip_casts(e[3])
-            if add[0] == "var" and f.names.get(add[1]) == "digits" or (add[0] == "var" and not any(p_ for p_ in [0])):
-                if add[0] == "var" and len(f.defs().get(add[1], [])) >= 2:
-                    tg = bb
+    for bb, add in _counter_addends(f, counter):
+        if add[0] == "var" and len(f.defs().get(add[1], [])) >= 2:
+            tg = bb
     col.check(R, "buffer_size_const:digits-term", tg is not None, "the `count += digits` term was not found", f.loc())
     if tg is None:
         return
@@ -1225,14 +1237,9 @@ def rule_digit_window_allowance(col, facts):
         raise AnchorMissing("buffer_size_const: counter not found")
     tg = None
     addend = None
-    for bb, jj, rv, pr in f.defs()[counter]:
-        if rv[0] == "call":
-            continue
-        e = rvalue_expr(f, rv, 0)
-        if e[0] == "bin" and e[1] == "Add":
-            add = strip_casts(e[3])
-            if add[0] == "var" and len(f.defs().get(add[1], [])) >= 2:
-                tg, addend = bb, add
+    for bb, add in _counter_addends(f, counter):
+        if add[0] == "var" and len(f.defs().get(add[1], [])) >= 2:
+            tg, addend = bb, add
     col.check(R, "buffer_size_const:digits-term(window)", tg is not None, "the `count += digits` term was not found", f.loc())
     if tg is None:
         return
@@ -3135,3 +3142,55 @@ def rule_sign_needs_digit(col, facts):
                             where = f.loc(st[3])
     col.check(R, "algorithm_partial:ok-at-non-digit-after-start-test", n >= 1 and bad == 0,
               "%d of %d exits `Ok((value, index - 1))` are taken without comparing the position with the start of the digits: after a sign with no digit (`+x`) the partial parser reports one byte consumed although `+` alone is Empty" % (bad, n), where)
+
+
+def rule_bound_sums_saturate(col, facts):
+    """GRD-sum (buffer_size_const): `min_significant_digits` and the exponent breaks are bounded only by their types
+    (`usize::MAX`, `i32::MIN` build and validate).  Whatever is derived from them must be added to the running
+    byte count with a total operation (`saturating_add`): a plain `+` overflows - panic in debug builds, a
+    wrapped, far too small bound in release (the writer then panics in safe code)."""
+    R = "GRD-sum"
+    f = facts.fn(WF + "options::Options::buffer_size_const")
+    GETTERS = ("min_significant_digits", "negative_exponent_break", "positive_exponent_break")
+
+    def user_controlled(e, depth=0):
+        e = strip_casts(e)
+        if any(last_seg(c[1]) in GETTERS for c in expr_calls(e)):
+            return True
+        if depth < 4:
+            vs = []
+
+            def walk(x):
+                if isinstance(x, tuple):
+                    if x and x[0] == "var" and len(x) > 1 and isinstance(x[1], int):
+                        vs.append(x[1])
+                    for y in x:
+                        walk(y)
+            walk(e)
+            for l in set(vs):
+                for _b, _j, rv, pr in f.defs().get(l, []):
+                    if not pr and rv[0] != "call" and user_controlled(rvalue_expr(f, rv, 1, l), depth + 1):
+                        return True
+                    if not pr and rv[0] == "call" and any(user_controlled(op_expr(f, a), depth + 1) for a in rv[2]):
+                        return True
+        return False
+    n = bad = 0
+    where = f.loc()
+    for i, b in enumerate(f.blocks):
+        if not f.live(i):
+            continue
+        for st in b["s"]:
+            if st[0] == "=" and st[2][0] == "bin" and st[2][1].startswith("Add"):
+                l, r = op_expr(f, st[2][2]), op_expr(f, st[2][3])
+                accs = {l_ for l_, ds_ in f.defs().items() if any(rv_[0] == "use" and rv_[1][0] == "k" and rv_[1][1].get("ty") == "usize" and rv_[1][1].get("v") == 2 for _b, _j, rv_, _p in ds_)}
+                for side in (l, r):
+                    ss = strip_casts(side)
+                    if ss[0] == "var" and ss[1] in accs:
+                        continue            # the accumulator itself: what is added to it decides
+                    if ss[0] != "k" and user_controlled(side):
+                        n += 1
+                        bad += 1
+                        where = f.loc(st[3])
+    sat = sum(1 for bb, c, a, d, t in f.calls() if last_seg(callee_name(c)) in ("saturating_add", "checked_add") and any(user_controlled(op_expr(f, x)) for x in a))
+    col.check(R, "buffer_size_const:option-derived-terms-saturate", bad == 0 and sat >= 2,
+              "%d plain `+` of a quantity derived from min_significant_digits / the exponent breaks (total additions: %d): min_significant_digits(usize::MAX) overflows the bound (debug panic, wrapped bound in release)" % (bad, sat), where)
